@@ -170,9 +170,10 @@ func c09Run(c *c09Case) (rec vtr.Rec) {
 		}
 	case "combiner":
 		tmpd, _ := ioutil.TempDir("", "verifc09")
+		oldTmp := os.Getenv("TMPDIR")
 		os.Setenv("TMPDIR", tmpd)
 		defer func() {
-			os.Unsetenv("TMPDIR")
+			os.Setenv("TMPDIR", oldTmp)
 			os.RemoveAll(tmpd)
 		}()
 		if c.Init > 0 {
